@@ -43,8 +43,17 @@ def gen_ops(rng, version):
         if r < 0.6:
             ops.append(('add', new))
         elif r < 0.85 and segs:
-            old = rng.choice(segs)
-            ops.append(('rename', old, n))
+            # segments mostly; also edges, gaps, groups and paths, which may give their identifier up for the placeholder
+            old = rng.choice(segs) if rng.random() < 0.5 or not names else rng.choice(names)
+            # giving up the identifier of a line that a group lists has no meaning in the text: not asked
+            listed = set()
+            for o in ops:
+                if o[0] == 'add' and o[1][:1] in 'OU':
+                    f = o[1].split('\t')
+                    listed |= set(x.rstrip('+-') if f[0] == 'O' else x for x in (f[2].split(' ') if len(f) > 2 else []))
+            kinds = dict((nm, k) for k, nm in GL.names_in([o[1] for o in ops if o[0] == 'add']))
+            star_ok = kinds.get(old) in ('E', 'G', 'O', 'U') and old not in listed
+            ops.append(('rename', old, rng.choice([n, n, '*']) if star_ok else n))
         else:
             ops.append(('rm', n))
     return ops
@@ -76,9 +85,9 @@ def step_oracle(G, op, r, ob, oa, removed):
             out.append(('lookup of an unused identifier returns a line', None, str(G.line(n))))
     if op[0] == 'rename' and r[0] == 'ok' and op[1] != op[2]:
         # the line is found under the new identifier only, and the number of lines is unchanged
-        if G.line(op[1]) is not None or G.line(op[2]) is None:
+        if G.line(op[1]) is not None or (op[2] != '*' and G.line(op[2]) is None) or op[1] in G.names:
             out.append(('after a successful rename the line is not found under the new identifier only', op[2],
-                        [str(G.line(op[1])), str(G.line(op[2]))]))
+                        [str(G.line(op[1])), str(impl.value_or(lambda: G.line(op[2]), None))]))
         a = [x for x in ob.split('\n') if x.startswith('L|')]
         b = [x for x in oa.split('\n') if x.startswith('L|')]
         if len(a) != len(b):
